@@ -346,6 +346,7 @@ struct ReplayEngine : Engine
 			"churned with 500-3000 dirty blocks, and in 3 fresh processes with MALLOC_PERTURB_ 1-255, ASLR on/off (personality), the environment padded by up to 8 KiB and the wall "
 			"clock (clock_gettime/gettimeofday/time, link-time wrapped) shifted by up to +-10 years. All trace hashes (handler order, virtual times, error codes, byte counts, payload "
 			"hashes, endpoints, every probe record, the capture file's bytes) must be equal; on mismatch both traces are recorded again and the first differing record is reported. "
+			"In addition a program over sim::default_config runs on a fresh configuration object and on one an earlier, stopped simulation has used: same trace. "
 			"distinct = distinct shape hash of the base program; non-trivial = the trace has more than 20 records";
 	}
 	int64_t budget(std::string const&, int tier) const override { return tier ? 20000 : 1200; }
